@@ -202,10 +202,25 @@ def radiotap_option_sizes(db, cache={}):
                 c = loops[0]["c"][0] if len(loops[0]["c"]) == 2 else loops[0]["c"][1]
                 at = cond.facts_of(f, c, True)
                 pv = f["params"][0]["var"]
-                ok = any(op == "!=" and r is not None and "current_field" in facts.expr_str(l) and strip(r).get("var") == pv for op, l, r in at) and \
-                    any(op == "true" and "has_fields" in facts.expr_str(l) for op, l, r in at)
                 rets = [n for n in facts.fn_nodes(f) if n["k"] == "ReturnStmt"]
-                ok = ok and len(rets) == 1 and "has_fields" in facts.expr_str(rets[0]["c"][0])
+                # form A: while (has_fields() && current_field() != flag) advance; return has_fields();
+                form_a = any(op == "!=" and r is not None and "current_field" in facts.expr_str(l) and strip(r).get("var") == pv for op, l, r in at) and \
+                    any(op == "true" and "has_fields" in facts.expr_str(l) for op, l, r in at) and \
+                    len(rets) == 1 and "has_fields" in facts.expr_str(rets[0]["c"][0])
+                # form B: every `return <not the constant false>` stands under has_fields() and current_field() == flag
+                gsk = cfg.FnCFG(f)
+                form_b = bool(rets)
+                n_true = 0
+                for r_ in rets:
+                    if facts.cval(r_["c"][0]) == 0:
+                        continue
+                    n_true += 1
+                    gfs_ = cond.guards_facts(gsk, gsk.pos(r_))
+                    if not (any(op == "==" and rr is not None and "current_field" in facts.expr_str(l) + facts.expr_str(rr) and
+                                (strip(rr).get("var") == pv or strip(l).get("var") == pv) for op, l, rr in gfs_) and
+                            any(op == "true" and "has_fields" in facts.expr_str(l) for op, l, rr in gfs_)):
+                        form_b = False
+                ok = form_a or (form_b and n_true >= 1)
         if ok:
             f = df[0]
             pv = f["params"][0]["var"]
